@@ -22,7 +22,7 @@ import (
 
 var wellKnown = []string{"", "null", "boolean", "string", "number", "integer", "array", "object",
 	"int32", "int64", "float32", "float64", "$schema", "id", "headers", "$ref", "type", "items",
-	"properties", "default", "example", "examples", "file"}
+	"properties", "default", "example", "examples", "file", "byte", "uint32", "uint64", "float", "double"}
 
 type interner struct {
 	ids   map[string]int
@@ -53,6 +53,7 @@ func (in *interner) id(s string) int {
 
 // enc accumulates what a case needs besides the terms themselves.
 type enc struct {
+	orcJSON   map[string]interface{} // the oracle tables in plain form, for the python-side property oracles
 	in        *interner
 	patterns  map[string]struct{} // every regexp source the schema can use
 	formats   map[string]struct{}
@@ -366,6 +367,41 @@ func (e *enc) oracles(reg strfmt.Registry, extraStrs []string) string {
 				}
 			}
 		}
+	}
+	e.orcJSON = map[string]interface{}{}
+	{
+		known := map[string]bool{}
+		checks := map[string][]string{}
+		if reg != nil {
+			for _, f := range fmts {
+				known[f] = reg.ContainsName(f)
+				if known[f] {
+					for _, s := range strs {
+						if reg.Validates(f, s) {
+							checks[f] = append(checks[f], s)
+						}
+					}
+				}
+			}
+		}
+		rl := map[string]int{}
+		for _, s := range strs {
+			rl[s] = utf8.RuneCountInString(s)
+		}
+		pm := map[string][]string{}
+		pok := map[string]bool{}
+		for _, p := range pats {
+			re, err := regexp.Compile(p)
+			pok[p] = err == nil
+			if err == nil {
+				for _, s := range strs {
+					if re.MatchString(s) {
+						pm[p] = append(pm[p], s)
+					}
+				}
+			}
+		}
+		e.orcJSON["fmt_known"], e.orcJSON["fmt_ok"], e.orcJSON["runes"], e.orcJSON["re_ok"], e.orcJSON["re_match"] = known, checks, rl, pok, pm
 	}
 	j := func(l []string) string { return "(" + strings.Join(l, " ") + ")" }
 	return "(" + j(runes) + " " + j(reok) + " " + j(rematch) + " " + j(fknown) + " " + j(fcheck) + ")"
